@@ -352,7 +352,10 @@ def main(argv):
         fs = item[1]
         return min((len(f.get("argv") or []), len(f.get("script_file") or ""), len(f.get("hist") or ""), len(f["pre"] or []), len(f["script"] or "")) for f in fs)
     for key, fs in sorted(viol_by_entry.items(), key=lambda it: (simplest(it), str(it[0])))[:8]:
-        fs.sort(key=lambda f: (len(f.get("argv") or []), len(f.get("script_file") or ""), len(f.get("hist") or ""), len(f["pre"] or []), f["form"] != "direct", len(f["script"] or "")))
+        # family histories that begin with an unrestricted interpreter replay in a fresh process whatever ran before: preferred
+        anyF = any((f.get("hist") or "").startswith("F") for f in fs)
+        fs.sort(key=lambda f: (len(f.get("argv") or []), len(f.get("script_file") or ""), bool(anyF and f.get("hist") and not f["hist"].startswith("F")),
+                               len(f.get("hist") or ""), len(f["pre"] or []), f["form"] != "direct", len(f["script"] or "")))
         f = fs[0]
         c.violation({"kind": "a script in a sandboxed interpreter reached the outside world" + (" (cmd/zygo run with a sandbox flag: zygo %s)" % " ".join(f["argv"]) if f.get("argv") else "")
                              + (" (member of an interpreter family: history %s -- S NewZlispSandbox, F NewZlisp, U<i> StandardSetup, M<i> ImportDemoData, D<i> Duplicate, C<i> Clone, V<i>:n (def n 0), A<i>:n:m (def n m); @target)" % f["hist"] if f.get("hist") else ""),
